@@ -21,6 +21,7 @@
 package engine
 
 import (
+	"errors"
 	"fmt"
 	"go/ast"
 	"go/token"
@@ -72,6 +73,11 @@ func (c *compiler) compileChange(achange *parse.Change) *Change {
 	}
 }
 
+// ErrUnchanged is returned by Replace when the "-" side of a change occurs in
+// the file but the "+" side can be put at none of these places, so that the
+// file stays as it is.
+var ErrUnchanged = errors.New("none of the matches can be rewritten")
+
 // Match matches this change in the given Go AST and returns captured match
 // information it a data.Data object.
 func (c *Change) Match(f *ast.File) (d data.Data, ok bool) {
@@ -80,10 +86,15 @@ func (c *Change) Match(f *ast.File) (d data.Data, ok bool) {
 
 // Replace generates a replacement File based on previously captured match
 // data.
+//
+// It returns ErrUnchanged if the change does nothing to the file.
 func (c *Change) Replace(d data.Data, cl Changelog) (*ast.File, error) {
-	f, err := c.replacer.Replace(d, cl)
+	f, replaced, err := c.replacer.replace(d, cl)
 	if err != nil {
 		return nil, err
+	}
+	if replaced == 0 {
+		return nil, ErrUnchanged
 	}
 	parenthesizeStarOperands(f)
 	return f, nil
